@@ -1,5 +1,10 @@
 package corpus
 
+import (
+	"fmt"
+	"strings"
+)
+
 // Awkward returns the fixed list of hostile spellings used by C09: characters
 // that are special to Go source, to text/template or to fmt, placed in string
 // literals, token names and lexical patterns.  Header and actions are valid Go.
@@ -24,6 +29,7 @@ func Awkward() []*Grammar {
 	lit("comment", `*/`, `/*`, `//`)
 	lit("gokeywords", "func", "type", "range", "nil", "iota")
 	lit("control", "a\nb", "tab\tq", "cr\rx", "\n")
+	lit("long-nonascii", "xαβγδεζηθικλμνξοπρστυφχψω", "αβγδεζηθικλμνξοπρστυφχψωαβγδεζηθ", "日本語のとても長いリテラル文字列です。これは三十二バイトを超えます", "aaaaaaaaaaaaaaaaaaaaaaaaaaaaaaaé")
 	lit("illegal-in-go", "a\x00b", "x\ufeffy", "\x7f\x01", "\u2028", "\u200e")
 
 	// Go keywords and predeclared names as token names and regdef names
@@ -71,9 +77,24 @@ func Awkward() []*Grammar {
 			{Kind: LexToken, Name: "c", Pattern: `'c' [ [ 'd' ] ] { [ 'e' ] } ( { 'f' } | [ 'g' ] )`, Samples: []string{"c", "cd", "cdeef", "cg"}},
 			{Kind: LexRegDef, Name: "_opt", Pattern: `[ 'x' ] { 'y' }`},
 			{Kind: LexToken, Name: "h", Pattern: `'h' { _opt } [ { _opt } ]`, Samples: []string{"h", "hxyy", "hyx"}},
+			{Kind: LexToken, Name: "k", Pattern: `'k' ` + strings.Repeat(`[ [ 'p' ] ] [ 'q' | [ 'r' ] ] ( [ 's' ] | [ 't' ] ) `, 8), Samples: []string{"k", "kpq", "kprs"}},
 			{Kind: LexIgnored, Name: "!sp", Pattern: `' ' { ' ' }`},
 		},
-		Prods: []*Prod{P("S", Al(Call()), Al(Call(A(0), T(1)), "S", "a"), Al(Call(A(0), T(1)), "S", "c"), Al(Call(A(0), T(1)), "S", "h"))}})
+		Prods: []*Prod{P("S", Al(Call()), Al(Call(A(0), T(1)), "S", "a"), Al(Call(A(0), T(1)), "S", "c"), Al(Call(A(0), T(1)), "S", "h"), Al(Call(A(0), T(1)), "S", "k"))}})
+
+	// 256 reduce/reduce states: a conflict count that is a multiple of 256 (8-bit exit status)
+	{
+		var names []*Alt
+		var labels []*Alt
+		for i := 0; i < 256; i++ {
+			kw := fmt.Sprintf("k%03d", i)
+			names = append(names, &Alt{Syms: []Sym{{Kind: Lit, Name: kw}}, Action: Call()})
+			labels = append(labels, &Alt{Syms: []Sym{{Kind: Lit, Name: kw}}, Action: Call()})
+		}
+		add(&Grammar{ID: "awk-conf256", GoccOnly: true, Ambiguous: true, Seps: wsSeps,
+			Lex:   []LexDef{ws()},
+			Prods: []*Prod{P("S", Al(Call(A(0)), "Name"), Al(Call(A(0)), "Label")), {Head: "Name", Alts: names}, {Head: "Label", Alts: labels}}})
+	}
 
 	// production names that collide with identifiers of the generated code
 	add(&Grammar{ID: "awk-prodnames", Seps: wsSeps,
